@@ -439,6 +439,7 @@ func runC11(w *World, r *Report) {
 	c11RuleI(w, r, subjects)
 	nameKeyedSetOverInline(w, r, "C11", func(fn *ssa.Function) bool { return !isGeneratorFunc(fn) && parsePhaseSet(w)[fn] }, "the parse phase remembers packets under their names and consults that set for inline objects too: an inline object named like a construct seen before is skipped, the packets its members refer to stay unlinked (nil) and the generators dereference them")
 	c11RuleN(w, r, subjects)
+	resolverDescendsIntoInline(w, r, "C11")
 	c11RuleD(w, r, subjects)
 	c11RuleH(w, r, subjects)
 	c11RuleK(w, r, subjects, derefs)
